@@ -64,3 +64,22 @@ CONTRACTS.append(Contract(
               'new_obj._class_origin == inherited_obj._class_origin')],
     raises={},
 ))
+
+# ---- MainProvider.CreateClass / ModifyClass (contracts/C11_prov.py): the resolver writes the inherited elements, `propagated`
+# and `class_origin` INTO the class object it is given - the hierarchy of this property is only right if that object is a
+# private deep copy of the caller's class (a caller that reuses its CIMClass object for the next request would otherwise
+# send elements that look locally declared).  Shared here, verified with the class view of their home module.
+import importlib.util as _ilu
+import os as _os
+import sys as _sys
+if 'contracts_C11' not in _sys.modules:
+    _sp11 = _ilu.spec_from_file_location('contracts_C11', _os.path.join(_os.path.dirname(_os.path.abspath(__file__)), 'C11.py'))
+    _c11 = _ilu.module_from_spec(_sp11)
+    _sys.modules['contracts_C11'] = _c11
+    _sp11.loader.exec_module(_c11)
+else:
+    _c11 = _sys.modules['contracts_C11']
+for _c in _c11.CONTRACTS:
+    if _c.key in ('pywbem_mock/_mainprovider.py::MainProvider.CreateClass', 'pywbem_mock/_mainprovider.py::MainProvider.ModifyClass'):
+        _c.home_class_specs = _c11.CLASS_SPECS
+        CONTRACTS.append(_c)
